@@ -9,7 +9,10 @@
 //
 //	process -> controller          controller -> process
 //	P <TAB> <line>:<callee>        go         (Point: about to make that call)
-//	A                              wake       (After: waiting for the timer)
+//	A                              wake       (After: waiting for the timer; the timer fires)
+//	                               cancel     (After: OnCancel() is called instead, the timer
+//	                                           never fires -- the caller's context is cancelled
+//	                                           while it waits)
 //	anything sent with Send        whatever the caller Recv()s
 //
 // Without ZZHOOK_FDS every hook is a no-op (Point returns, After is time.After).
@@ -29,6 +32,10 @@ var (
 	in      *bufio.Reader
 	out     *os.File
 )
+
+// OnCancel is what the token "cancel" runs while the process waits in After: the harness
+// registers the cancel func of the context it passes to Lock.  Set it before the first After.
+var OnCancel func()
 
 func init() {
 	v := os.Getenv("ZZHOOK_FDS")
@@ -90,7 +97,9 @@ func Point(label string) {
 	}
 }
 
-// After stands in for time.After: the channel fires when the controller says wake.
+// After stands in for time.After: the channel fires when the controller says wake; when the
+// controller says cancel, OnCancel is called and the channel never fires.  (The goroutine has
+// returned from Recv before it calls OnCancel, so the caller's next Send/Recv does not race it.)
 func After(d time.Duration) <-chan time.Time {
 	if !enabled {
 		return time.After(d)
@@ -98,10 +107,17 @@ func After(d time.Duration) <-chan time.Time {
 	ch := make(chan time.Time, 1)
 	Send("A")
 	go func() {
-		if tok := Recv(); tok != "wake" {
-			fatal("in After: expected wake, got " + tok)
+		switch tok := Recv(); tok {
+		case "wake":
+			ch <- time.Now()
+		case "cancel":
+			if OnCancel == nil {
+				fatal("in After: cancel, but no OnCancel registered")
+			}
+			OnCancel()
+		default:
+			fatal("in After: expected wake or cancel, got " + tok)
 		}
-		ch <- time.Now()
 	}()
 	return ch
 }
